@@ -763,6 +763,12 @@ func (h txHarness) Gen(r *verifsim.SplitMix, tier string, idx int) any {
 		for i := 0; i < 1+r.Intn(2); i++ {
 			sp.Damage = append(sp.Damage, txDamage{Kind: "synthetic", File: r.Intn(8), Arg: r.Intn(1 << 20)})
 		}
+	} else if r.Chance(1, 6) && len(sp.Files) > 0 {
+		// the output directory holds older copies of some files (an earlier fetch of an
+		// earlier version of the tree), without resume metadata
+		for i := 0; i < 1+r.Intn(3); i++ {
+			sp.Damage = append(sp.Damage, txDamage{Kind: "old_output", File: r.Intn(8), Arg: r.Intn(1 << 20)})
+		}
 	} else if h.prop == "C17" && r.Chance(2, 5) && len(sp.Files) > 0 {
 		// a resumed transfer whose verification fails: a prior state written directly
 		// (bitmap shapes) with the highest marked chunk torn, so that the sender has to
